@@ -12,7 +12,10 @@ import (
 func init() {
 	props["C18"] = func(r *Report) {
 		c18(r)
-		r.Guard("C18.R9", "every lock taken is released on every exit: the shaping locks", func() { lockPairRule(r, "trafficshape") })
+		r.Guard("C18.R9", "every lock taken is released on every exit: the shaping locks", func() {
+			lockPairRule(r, "trafficshape")
+			guardedFieldsRule(r, "trafficshape", "Listener", "mu", []string{"defaults", "latency"}, "a connection being accepted reads a half-updated default while a configuration is being installed")
+		})
 	}
 	floors["C18"] = map[string]int{"C18.R1": 6, "C18.R2": 14, "C18.R3": 12, "C18.R4": 4, "C18.R5": 1, "C18.R6": 1, "C18.R7": 3, "C18.R8": 7, "C18.R9": 1}
 }
@@ -847,6 +850,8 @@ func c18(r *Report) {
 	})
 
 	r.Guard("C18.R7", "buckets created for a connection or a shape are closed when it goes away", func() {
+		// a failed Accept is reported, not turned into a nil connection
+		errorsReturnedRule(r, r.W.Fn("trafficshape", "Listener.Accept"), false)
 		gts := r.Use("trafficshape", "Listener.GetTrafficShapedConn")
 		cl := r.Use("trafficshape", "Conn.Close")
 		if gts == nil || cl == nil {
